@@ -4,7 +4,7 @@
    are numbers (the harness numbers the Go keys/values it uses). *)
 From PGV Require Import Base.Bytes Spec.LRUSpec.
 
-Definition id := N.
+Notation id := N (only parsing).
 
 Record st := {
   maxsz : Z;                      (* maxSize, an int: the comparison Len() > maxSize is on Z *)
